@@ -5,10 +5,19 @@ Model of the page codec in storage/page.go: `encodeLeaf`, `encodeInternal`, `dec
 `decodeInternal` and the kind dispatch in `fileStore.fetch`.
 
 A node is modelled by its *logical* content: the cells in offset-array order.  The engine
-only ever produces identity offset arrays `[0, 1, …, n-1]` (appends, splits that truncate
-the array, decodes); the heap dumps compared by the correspondence check include the
-array, so a node with any other array would be seen.  Layout constants come from
-`Mkdb.Generated` (regenerated from the source on every run).
+produces identity offset arrays `[0, 1, …, n-1]` (appends, splits that truncate the array,
+decodes) as long as no cell is added to a node object that was split before and has not been
+reloaded since: `btreeNode.split` truncates `offsets` only, the moved cells stay in `leafCells` /
+`internalCells`, and the next `insertLeafCell` on that object takes `len(leafCells)` as the slot
+(offsets `0,1,2,3,9`: the page no longer decodes), the next `appendInternalCell` takes
+`len(offsets)` as the slot while the cell goes to the end of `internalCells` (the slot shows the
+stale middle cell, the new separator is lost).  With ascending keys that does not happen - an
+append goes to the rightmost leaf and its ancestors, which after a split are the NEW nodes - and
+`Store.insertLeaf` gives `.unmodelled` for an append to a leaf with a right sibling instead of
+predicting an identity array (Mkdb/Props/C11.lean, `C11_append_never_meets_a_split_node`).  The
+heap dumps compared by the correspondence check include the array, so a node with any other
+array would be seen.  Layout constants come from `Mkdb.Generated` (regenerated from the source
+on every run).
 -/
 namespace Mkdb.Page
 open Mkdb.Bin Mkdb.Generated
